@@ -21,12 +21,12 @@ EXPLANATION = (
     'applying_/applied_migration and is installed as progress_callback; '
     'R-C17.3 each of the nine signals is sent only from its designated '
     'function; R-C17.4 the evolve lock is incremented on evolving and '
-    'decremented on both evolved and evolving_failed, with no other writer.')
+    'decremented on both evolved and evolving_failed, with no other writer; '
+    'R-C17.5 the evolutions announced for an evolution batch derive from the '
+    'same batch entry as the SQL that is executed for it.')
 NOT_DECIDED = (
     'That the payload (evolutions, migrations, model names) equals exactly '
-    'what was executed between the paired signals for every run, including '
-    'runs whose evolutions are split over several batches (R-C17.5 is not '
-    'armed, see DESIGN.md).')
+    'what was executed between the paired signals for every run.')
 TECHNIQUE = ('CFG must-pass-through / dominance with exceptional edges '
              '(typestate pairing of signals), who-may-send table over the '
              'whole package, decorator/connection table agreement')
@@ -458,7 +458,58 @@ def r4_lock_balance(ctx):
                     '_evolve_lock', key='lock-unused')
 
 
+def r5_payload_provenance(ctx):
+    """The evolutions announced for a batch come from the same batch entry
+    as the SQL that is executed."""
+    ctx.rule('R-C17.5')
+    p = ctx.program
+    from ..flow import ReachingDefs
+    f = p.func(TASK, 'EvolveAppTask.execute_tasks')
+    g = ctx.cfg(f)
+    rd = ReachingDefs(g, f.params)
+    calls = [(n, c) for n, c in nodes_with_call(g, 'execute')
+             if kwarg(c, 'sql') is not None]
+    ctx.floor('task.execute(sql=...) call sites in execute_tasks', len(calls),
+              1)
+    for n, c in calls:
+        sql_src = ' '.join(unparse(e) for _, e in rd.origins(n, kwarg(c, 'sql')))
+        ev = kwarg(c, 'evolutions')
+        if 'task_info' not in sql_src:
+            ctx.finding(f, c, 'the SQL handed to task.execute does not come '
+                        'from the batch entry (task_info)')
+            continue
+        if ev is None:
+            ctx.finding(f, c, 'task.execute() is given the SQL of this batch '
+                        '(sql=%s) but not the evolutions of this batch: '
+                        'execute() falls back to all pending evolutions of '
+                        'the task, so when a task is split over two batches '
+                        'both applying/applied_evolution pairs announce every '
+                        'evolution' % unparse(kwarg(c, 'sql')),
+                        key='evolutions-not-from-batch')
+            continue
+        ev_src = ' '.join(unparse(e) for _, e in rd.origins(n, ev))
+        if 'task_info' in ev_src:
+            ctx.ok(f, 'announced evolutions and executed SQL come from the '
+                   'same batch entry', c)
+        else:
+            ctx.finding(f, c, 'evolutions=%s does not derive from the batch '
+                        'entry whose SQL is executed' % unparse(ev)[:60],
+                        key='evolutions-not-from-batch')
+    ex = p.func(TASK, 'EvolveAppTask.execute')
+    eg = ctx.cfg(ex)
+    sends = signal_sends(eg, 'applying_evolution') + \
+        signal_sends(eg, 'applied_evolution')
+    for n, c in sends:
+        v = kwarg(c, 'evolutions')
+        if v is not None and isinstance(v, ast.Name) and v.id in ex.params:
+            ctx.ok(ex, 'the signal carries the evolutions parameter', c)
+        else:
+            ctx.finding(ex, c, 'the signal does not carry the evolutions '
+                        'parameter of execute()')
+
+
 def run(ctx):
+    r5_payload_provenance(ctx)
     r1_run_level(ctx)
     r2_step_level(ctx)
     r3_who_may_send(ctx)
